@@ -5,9 +5,9 @@ CONSTANTS
   FAMS = {"alias"}
   TYPES = {"hash", "hset", "ivec", "list", "str"}
   DEPTH = 4
-  KINDS0 = {"L", "M", "G", "WL", "WM"}
-  KINDS1 = {"L", "M", "G", "WL", "WM"}
-  KINDSR = {"L", "M", "G", "WL", "WM"}
+  KINDS0 = {"L", "M", "G", "WL", "WM", "WE"}
+  KINDS1 = {"L", "M", "G", "WL", "WM", "WE"}
+  KINDSR = {"L", "M", "G", "WL", "WM", "WE"}
   KEEP1 = 300
   KEEP2 = 30
   KEEPR = 10
